@@ -131,8 +131,10 @@ def run_case(c: dict) -> CaseResult:
         env,
         password=c.get("password"),
         noise_psk=base64.b64encode(KEY).decode() if noise else None,
-        expected_name=c.get("expected"),
+        expected_name=c.get("expected") if not c.get("exp_via") else c.get("ctor_expected"),
     )
+    if c.get("exp_via") == 1:  # the expected name is configured through the public setter before connecting
+        cli.expected_name = c.get("expected")
     stops = []
 
     async def on_stop(x):
@@ -141,7 +143,12 @@ def run_case(c: dict) -> CaseResult:
     info = {}
 
     async def flow():
-        await cli.connect(on_stop=on_stop, login=c["login"])
+        if c.get("exp_via") == 2:  # ... or between the two public phases of connecting
+            await cli.start_connection(on_stop=on_stop)
+            cli.expected_name = c.get("expected")
+            await cli.finish_connection(login=c["login"])
+        else:
+            await cli.connect(on_stop=on_stop, login=c["login"])
         info["api_version"] = cli.api_version
         info["state"] = env.conns[-1].connection_state.name
 
@@ -202,6 +209,8 @@ def run_case(c: dict) -> CaseResult:
         cl.add("split_answer")
     if noise:
         cl.add("noise")
+    if c.get("exp_via"):
+        cl.add("expected_name_via_setter")
     boundary = c["major"] in (2, 3) or c["invalid_password"] or c["order"] != "hc" or (c.get("expected") is not None)
     res.classes = sorted(cl)
     res.nontrivial = bool(boundary or "split_answer" in cl)
@@ -235,6 +244,9 @@ def _case(draw, tier):
     }
     if noise:
         c["noise_name"] = draw(st.sampled_from(NOISE_NAMES + [None, "dev"]))
+    if draw(st.integers(0, 3)) == 2:
+        c["exp_via"] = draw(st.sampled_from([1, 2]))
+        c["ctor_expected"] = draw(st.sampled_from([None, "other", "dev"]))
     m = draw(st.integers(0, 3))
     if m == 0:
         c["cuts"] = draw(st.lists(st.integers(0, 40), min_size=1, max_size=3))
@@ -270,6 +282,10 @@ def enumerated(tier):
                                             if order == "hc" and minor == 10 and pw is None:
                                                 for tr_ in ("discreq", "garbage", "eof"):
                                                     yield {**c, "trailer": tr_}
+                                            if order == "hc" and minor == 10 and pw is None and not ip and major in (1, 3):
+                                                for via in (1, 2):
+                                                    for ce in (None, "other", "dev"):
+                                                        yield {**c, "exp_via": via, "ctor_expected": ce}
                                             k = (major + len(an) + len(order) + (1 if ip else 0)) % 3
                                             if k == 1:
                                                 c["cuts"] = [5, 17]
